@@ -584,6 +584,160 @@ def canon_dims(nd):
     return Dimensions(nd).as_list()
 
 
+def ref_super_of_tensor(Ss, ns):
+    """Matrix of the superoperator of the tensor-product space acting as the
+    tensor of the maps S_k (column stacking), pure NumPy.  S_k is
+    (n_k^2 x n_k^2); row index b*n + a <-> output element (a, b), column index
+    e*n + c <-> input element (c, e)."""
+    k = len(Ss)
+    T = None
+    for S, n in zip(Ss, ns):
+        X = S.reshape(n, n, n, n)           # [b, a, e, c]
+        T = X if T is None else np.multiply.outer(T, X)
+    # axes: for factor q: 4q + (0:b, 1:a, 2:e, 3:c)
+    order = ([4 * q + 0 for q in range(k)] + [4 * q + 1 for q in range(k)]
+             + [4 * q + 2 for q in range(k)] + [4 * q + 3 for q in range(k)])
+    N = prod(ns)
+    return T.transpose(order).reshape(N * N, N * N)
+
+
+def per_subsystem_super(R, D):
+    """A superoperator over the composite space D rearranged as the tensor
+    product of superoperator spaces over each subsystem (pure NumPy)."""
+    m = len(D)
+    T = R.reshape(list(D) * 4)              # [B.., A.., E.., C..]
+    rows = [x for q in range(m) for x in (q, m + q)]
+    cols = [x for q in range(m) for x in (2 * m + q, 3 * m + q)]
+    return T.transpose(rows + cols).reshape(R.shape)
+
+
+def vec_np(X):
+    return X.reshape(-1, order="F")
+
+
+def reshuffle_composite_case(p, bad):
+    """reshuffle / super_tensor / composite on factors over composite spaces,
+    against the definition: the result acts as the tensor of the maps."""
+    import qutip
+    from qutip import Qobj
+    ds = p["factor_dims"]
+    fmt = p.get("fmt", "CSR")
+    ns = [prod(d) for d in ds]
+    D = [x for d in ds for x in d]
+    N = prod(ns)
+    k = len(ds)
+    pending = []
+
+    def guarded(fn):
+        """super_tensor / composite split every factor into one superoperator
+        space per subsystem; over a 1-dimensional subsystem that space is a
+        scalar and qutip refuses the mixture (reported once, the other
+        sub-checks still run)."""
+        try:
+            return fn()
+        except TypeError as e:
+            if any(x == 1 for x in D) and "compound space of super and non super" in str(e):
+                pending.append(bad("tensor.super_tensor:unit-subsystem-in-factor",
+                                   "TypeError:compound-of-super-and-non-super",
+                                   "super_tensor/composite raise %r for a factor over a composite "
+                                   "space with a 1-dimensional subsystem" % (e,)))
+                return None
+            raise
+    if p["kind"] == "super":
+        Ss = [to_np(m) for m in p["factors"]]
+        qs = [Qobj(S, dims=[[d, d], [d, d]]).to(fmt) for S, d in zip(Ss, ds)]
+        ref = ref_super_of_tensor(Ss, ns)
+        expd = canon_dims([[D, D], [D, D]])
+        # the reference itself: acts on a product operator as the tensor of the maps
+        As = [to_np(m) for m in p["probes"]]
+        big = np.array([[1]], dtype=complex)
+        outs = np.array([[1]], dtype=complex)
+        for S, A, n in zip(Ss, As, ns):
+            big = np.kron(big, A)
+            outs = np.kron(outs, (S @ vec_np(A)).reshape(n, n, order="F"))
+        if not np.array_equal(ref @ vec_np(big), vec_np(outs)):
+            raise AssertionError("reference is not the tensor of the maps")
+        T = qutip.tensor(*qs)
+        if k >= 2:
+            R = qutip.reshuffle(T)
+            if R.full().shape != ref.shape or not np.array_equal(R.full(), ref):
+                return bad("superoperator.reshuffle:tensor-of-supers", "wrong-array",
+                           "reshuffle(tensor(S1, S2, ...)) does not act as S1 (x) S2 (x) ... "
+                           "on the tensor-product space")
+            if R.dims != expd:
+                return bad("superoperator.reshuffle:tensor-of-supers", "wrong-dims",
+                           "dims %r expected %r" % (R.dims, expd))
+        st = guarded(lambda: qutip.super_tensor(*qs))
+        if st is None:
+            pass
+        elif not np.array_equal(st.full(), ref):
+            return bad("tensor.super_tensor:composite-factors", "wrong-array",
+                       "super_tensor does not act as the tensor of the maps")
+        elif st.dims != expd:
+            return bad("tensor.super_tensor:composite-factors", "wrong-dims",
+                       "dims %r expected %r" % (st.dims, expd))
+        # reshuffle of a superoperator over a composite space: one
+        # superoperator space per subsystem
+        if len(D) >= 2 and all(x > 1 for x in D):
+            back = qutip.reshuffle(Qobj(ref, dims=[[D, D], [D, D]]).to(fmt))
+            ref2 = per_subsystem_super(ref, D)
+            if not np.array_equal(back.full(), ref2):
+                return bad("superoperator.reshuffle:super-of-tensor", "wrong-array",
+                           "reshuffle(super over composite space) is not the per-subsystem regrouping")
+            side = [[x] for x in D for _ in (0, 1)]
+            if back.dims != [side, side]:
+                return bad("superoperator.reshuffle:super-of-tensor", "wrong-dims",
+                           "dims %r expected %r" % (back.dims, [side, side]))
+        # composite(): operators are promoted with to_super
+        Us = [to_np(m) for m in p["unitaries"]]
+        args, SsC = [], []
+        for q, (S, U, d, isop) in enumerate(zip(Ss, Us, ds, p["as_oper"])):
+            if isop:
+                args.append(Qobj(U, dims=[d, d]).to(fmt))
+                SsC.append(np.kron(U.conj(), U))
+            else:
+                args.append(qs[q])
+                SsC.append(S)
+        if any(not x for x in p["as_oper"]):
+            comp = guarded(lambda: qutip.composite(*args))
+            refc = ref_super_of_tensor(SsC, ns)
+            if comp is None:
+                pass
+            elif not np.array_equal(comp.full(), refc):
+                return bad("tensor.composite:composite-factors", "wrong-array",
+                           "composite does not act as the tensor of the maps")
+            elif comp.dims != expd:
+                return bad("tensor.composite:composite-factors", "wrong-dims",
+                           "dims %r expected %r" % (comp.dims, expd))
+        return pending[0] if pending else None
+    # operator-kets
+    Xs = [to_np(m) for m in p["factors"]]
+    vs = [qutip.operator_to_vector(Qobj(X, dims=[d, d]).to(fmt)) for X, d in zip(Xs, ds)]
+    big = np.array([[1]], dtype=complex)
+    for X in Xs:
+        big = np.kron(big, X)
+    ref = vec_np(big).reshape(-1, 1)
+    expd = canon_dims([[D, D], [1]])
+    if k >= 2:
+        R = qutip.reshuffle(qutip.tensor(*vs))
+        if R.full().shape != ref.shape or not np.array_equal(R.full(), ref):
+            return bad("superoperator.reshuffle:tensor-of-operator-kets", "wrong-array",
+                       "reshuffle(tensor(vec(X1), vec(X2), ...)) is not vec(X1 (x) X2 (x) ...)")
+        if R.dims != expd:
+            return bad("superoperator.reshuffle:tensor-of-operator-kets", "wrong-dims",
+                       "dims %r expected %r" % (R.dims, expd))
+    st = guarded(lambda: qutip.super_tensor(*vs))
+    if st is None:
+        return pending[0]
+    if st.full().shape != ref.shape or not np.array_equal(st.full(), ref):
+        return bad("tensor.super_tensor:operator-kets", "wrong-array",
+                   "super_tensor of operator-kets is not vec of the tensor product")
+    if st.dims != expd:
+        return bad("tensor.super_tensor:operator-kets", "wrong-dims",
+                   "dims %r expected %r" % (st.dims, expd))
+    return None
+
+
 def oracle_case(op, p):
     """Runs one property instance on the implementation.  Returns None when
     the property holds, else (site, signature, what)."""
@@ -859,6 +1013,8 @@ def oracle_case(op, p):
             if not np.array_equal(out.full(), ref) or out.dims != q.dims:
                 return bad("subsystem_apply:super", "wrong-array", "S applied to the masked subsystems differs")
             return None
+        if op == "reshuffle_composite":
+            return reshuffle_composite_case(p, bad)
         if op == "super_tensor":
             d = p["dims"]
             Us = [Qobj(to_np(m)).to(fmt) for m in p["factors"]]
@@ -900,6 +1056,19 @@ def oracle_case(op, p):
 
 
 WITNESSES = [
+    ("reshuffle_composite", {
+        "kind": "super", "fmt": "CSR", "factor_dims": [[2, 2], [2]],
+        "factors": [[[[(r * 16 + c) % 7 - 3, (r + 2 * c) % 3 - 1] for c in range(16)] for r in range(16)],
+                    [[[(r * 4 + c) % 5 - 2, (r * c) % 3 - 1] for c in range(4)] for r in range(4)]],
+        "probes": [[[[r + 2 * c, r - c] for c in range(4)] for r in range(4)],
+                   [[[1 + r, c] for c in range(2)] for r in range(2)]],
+        "unitaries": [[[[(r + c) % 3, r - c] for c in range(4)] for r in range(4)],
+                      [[[r + 1, c] for c in range(2)] for r in range(2)]],
+        "as_oper": [False, True]}),
+    ("reshuffle_composite", {
+        "kind": "operator-ket", "fmt": "Dense", "factor_dims": [[2, 3], [2]],
+        "factors": [[[[r * 6 + c, r - c] for c in range(6)] for r in range(6)],
+                    [[[1 + r, 2 * c] for c in range(2)] for r in range(2)]]}),
     ("tensor_swap", {"dims": [[2, 1, 3], [1]], "pairs": [[1, 2]], "fmt": "Dense",
                      "matrix": [[[k, 0]] for k in range(6)]}),
     ("tensor_contract", {"dims": [[3, 3], [3, 2]], "pairs": [[2, 1]], "fmt": "Dense",
@@ -920,7 +1089,7 @@ def gen_oracle_case(rng):
     op = rng.choice(["ptrace", "ptrace", "ptrace_operket", "ptrace_product", "permute", "permute",
                      "tensor", "expand", "tensor_swap", "tensor_swap", "tensor_contract",
                      "tensor_contract", "tensor_rep", "partial_transpose", "subsystem_apply",
-                     "super_tensor"])
+                     "super_tensor", "reshuffle_composite", "reshuffle_composite"])
     fmt = rng.choice(["CSR", "Dense", "Dia"])
     p = {"fmt": fmt}
 
@@ -1034,6 +1203,29 @@ def gen_oracle_case(rng):
                 break
         p.update(dims=d, mask=mask, dsub=ds, matrix=rand_mat(rng, prod(d), prod(d), 0.6),
                  U=rand_mat(rng, ds, ds, 0.8), S=rand_mat(rng, ds * ds, ds * ds, 0.5))
+    elif op == "reshuffle_composite":
+        kind = rng.choice(["super", "super", "operator-ket"])
+        cap = 8 if kind == "super" else 18
+        while True:
+            k = rng.randint(1, 3)
+            ds = []
+            for _ in range(k):
+                while True:
+                    d = [rng.choice([1, 2, 2, 3]) for _ in range(rng.randint(1, 3))]
+                    if not all(x == 1 for x in d) and prod(d) <= 6:
+                        break
+                ds.append(d)
+            if prod([prod(d) for d in ds]) <= cap:
+                break
+        ns = [prod(d) for d in ds]
+        p.update(kind=kind, factor_dims=ds)
+        if kind == "super":
+            p.update(factors=[rand_mat(rng, n * n, n * n, 0.5) for n in ns],
+                     probes=[rand_mat(rng, n, n, 0.8) for n in ns],
+                     unitaries=[rand_mat(rng, n, n, 0.8) for n in ns],
+                     as_oper=[rng.random() < 0.4 for _ in ns])
+        else:
+            p.update(factors=[rand_mat(rng, n, n, 0.8) for n in ns])
     elif op == "super_tensor":
         d = [rng.choice([2, 3]) for _ in range(rng.randint(2, 3))]
         if prod(d) > 12:
